@@ -17,7 +17,7 @@ Definition cview (s : shaped) : option trip * option trip :=
 
 (* Well-formed callback trees inside the class where the property holds:
    every child was produced by a recorded callback or is a token / None; a node builder that
-   returns one of its children returns an existing one; and (exclusion of finding F13) when the
+   returns one of its children returns an existing one; and (exclusion of finding F23) when the
    returned child is a bare Token, the rule matched no other token. *)
 Inductive good : ptree -> Prop :=
 | g_tok se : good (PTok se)
@@ -240,16 +240,16 @@ Proof.
   repeat split; assumption.
 Qed.
 
-(* Necessity of the token clause of [good] (finding F13): for [start: atom "x"], [?atom: "(" NUM ")"]
+(* Necessity of the token clause of [good] (finding F23): for [start: atom "x"], [?atom: "(" NUM ")"]
    on the input "(1)x" the inlined rule returns the bare NUM token, the filtered "(" is forgotten,
    and the parent's meta starts at offset 1 instead of 0. *)
 Local Open Scope Z_scope.
-Definition f13_tree : ptree :=
+Definition f23_tree : ptree :=
   PNode None OOther
     [PNode (Some 1%nat) OOther [PTok ((0, 1, 1), (1, 1, 2)); PTok ((1, 1, 2), (2, 1, 3)); PTok ((2, 1, 3), (3, 1, 4))];
      PTok ((3, 1, 4), (4, 1, 5))].
 
 Lemma meta_span_inlined_token_refuted :
-  exists o cs m, f13_tree = PNode None o cs /\ build (PNode None o cs) = SHTree m /\
+  exists o cs m, f23_tree = PNode None o cs /\ build (PNode None o cs) = SHTree m /\
     m_start m = Some (1, 1, 2) /\ first_start (flat_map toks cs) = Some (0, 1, 1).
 Proof. do 3 eexists. split; [reflexivity|]. vm_compute. repeat split. Qed.
